@@ -1,5 +1,6 @@
 """C06 — checks with a closed-form criterion flag exactly the artifacts that meet it."""
 import hashlib
+import os
 import json
 import multiprocessing as mp
 import random
@@ -184,6 +185,23 @@ def rsa_worker(args):
     return None, traceback.format_exc()
 
 
+_KP_FIXTURE = None
+
+
+def keypair_fixture():
+  """(bits, seed byte) -> modulus the vulnerable generator produces for that covered seed: spec/fixtures/keypair_moduli.ndjson, written
+  from the pinned tree's keypair_generator (which reproduces upstream's three real keypair.js moduli and whose 768 moduli all carry the
+  64 leading bits of the shipped table).  Ground truth that does not move when the code does."""
+  global _KP_FIXTURE
+  if _KP_FIXTURE is None:
+    import base64
+    _KP_FIXTURE = {}
+    for line in open(os.path.join(tlc.SPEC, 'fixtures', 'keypair_moduli.ndjson')):
+      r = json.loads(line)
+      _KP_FIXTURE[(r['bits'], r['seed_byte'])] = int.from_bytes(base64.b64decode(r['n']), 'big')
+  return _KP_FIXTURE
+
+
 def keypair_worker(args):
   bits, seed_hex, covered = args
   try:
@@ -191,10 +209,16 @@ def keypair_worker(args):
     from paranoid_crypto.lib import paranoid  # noqa
     from paranoid_crypto.lib import rsa_single_checks as rs, keypair_generator
     seed = bytes.fromhex(seed_hex)
-    p, q = keypair_generator.Generator(seed).generate_key(bits)
-    n = int(p) * int(q)
-    a = checks.Art('k', 'rsa', art.rsa_key(n), 'keypair', n=n, p=int(p), q=int(q), crit={c: 'may' for c in gen.RSA_CHECKS},
-                   attrs=exact_attrs(n, b'\x01\x00\x01', keypair='covered' if covered else 'uncovered'))
+    meta = {}
+    if covered:
+      n = keypair_fixture()[(bits, seed[0])]          # the real key: independent of the code under test
+      meta = {'primes_unknown': True}
+    else:
+      p, q = keypair_generator.Generator(seed).generate_key(bits)
+      n = int(p) * int(q)
+      meta = {'p': int(p), 'q': int(q)}
+    a = checks.Art('k', 'rsa', art.rsa_key(n), 'keypair', n=n, crit={c: 'may' for c in gen.RSA_CHECKS},
+                   attrs=exact_attrs(n, b'\x01\x00\x01', keypair='covered' if covered else 'uncovered'), **meta)
     chk = rs.CheckKeypairDenylist()
     rec = checks.record_call('C06-keypair-%d-%s' % (bits, seed_hex[:6]), 'rsa', [a], lambda: chk.Check([a.proto]), ['CheckKeypairDenylist'],
                              {a.aid: a.meta['crit']})
@@ -218,11 +242,10 @@ def keypair_history_worker(args):
     def mk(aid, n, pq, covered):
       at = exact_attrs(n, b'\x01\x00\x01', keypair='covered' if covered else 'neighbour')
       return checks.Art(aid, 'rsa', art.rsa_key(n), 'keypair' if covered else 'keypairnb', n=n, crit={c: 'may' for c in gen.RSA_CHECKS}, attrs=at,
-                        **({'p': pq[0], 'q': pq[1]} if pq else {}))
+                        **({'p': pq[0], 'q': pq[1]} if pq else {'primes_unknown': covered}))
     for step, bits in enumerate(sizes):
-      p, q = (int(v) for v in keypair_generator.Generator(seed).generate_key(bits))
-      n = p * q
-      for covered, m, pq in ((True, n, (p, q)), (False, n + 2, None)):
+      n = keypair_fixture()[(bits, b0)]
+      for covered, m, pq in ((True, n, None), (False, n + 2, None)):
         a = mk('k%d%s' % (step, 'c' if covered else 'n'), m, pq, covered)
         rec = checks.record_call('%s-kphist-%d-%d-%d%s' % (prefix, b0, step, bits, 'c' if covered else 'n'), 'rsa', [a],
                                  lambda: chk.Check([a.proto]), ['CheckKeypairDenylist'], {a.aid: a.meta['crit']})
@@ -347,8 +370,8 @@ def run(ctx):
     if i % 5 == 0:
       jobs.append((tag, n, e_bytes, n_bytes, i % 2 == 1, False))
   seeds = []
-  for bits in ([2048] if ctx.quick else [2048, 3072, 4096]):
-    firsts = [0, 1, 77, 128, 200, 255] if ctx.quick else range(256)
+  for bits in [2048, 3072, 4096]:
+    firsts = range(256)
     for b0 in firsts:
       seeds.append((bits, bytes([b0] + [0] * 31).hex(), True))
     for b0 in ([5] if ctx.quick else [0, 37, 74, 111, 148, 185, 222]):
